@@ -16,8 +16,8 @@ RULE = ("counts (k, n-k) with n from 1 to 5000 (concentrated around the 1000 thr
         "= mapping; swap of roles with inverted ratio")
 TRUSTED = ["translator tools/py2coq.py (Proportion spec)", "scipy.stats.binomtest / norm.sf as oracles",
            "stand-in shims in this harness"]
-ASSUMES = ["C11_binom_partial: that scipy.stats.binomtest is the two-sided exact binomial test (sum of outcomes no more likely "
-           "than the observed one) and its swap symmetry are validated against exact rationals, not proved"]
+ASSUMES = ["C11_binom_partial: that scipy.stats.binomtest is the two-sided exact binomial test of proofs/C11_binom.v (sum of outcomes "
+           "no more likely than the observed one; scipy adds a relative tie tolerance) is validated against exact rationals, not proved"]
 
 
 from props.C10 import UQ, UQF   # exact rational wrapper: arithmetic with float literals (0.5) stays exact
